@@ -691,3 +691,36 @@ def _(E, p):
     bw = BeckeWeights()
     atnums, atcoords = _two_atoms(E)
     return [bw.generate_weights(E.arr("points", _pts3(8, 136)), atcoords, atnums, select=E.lst("select", [0, 1]), pt_ind=E.lst("pt_ind", [0]))]
+
+
+@entry("ode_sparse_coefficients", 4.0)
+def _(E, p):
+    """ODEs whose lower-order coefficients vanish and whose leading coefficient is not one (y'' = f/2, 3y' = f, ...),
+    solved as BVP and IVP, directly and through a linear map: coefficient patterns matter for which code path touches
+    the callback's array."""
+    from grid.ode import solve_ode_bvp, solve_ode_ivp
+    from grid.rtransform import LinearFiniteRTransform
+
+    patterns = [[0.0, 0.0, 2.0], [0.0, 3.0], [0.0, 0.0, 0.0, 1.5], [0.0, 1.0, 2.0], [0, 0, 2], [0.0, 0.0, 0.5]]
+    co = patterns[p % len(patterns)]
+    order = len(co) - 1
+    lead_cb = p % 2 == 1
+    coeffs = list(co)
+    if lead_cb:
+        coeffs[-1] = E.cb("a_lead", lambda t, v=float(co[-1]): v + 0.0 * np.asarray(t, dtype=float))
+    coeffs = E.lst("coeffs", coeffs)
+    fx = E.cb("fx", lambda t: np.array(t, dtype=float), identity=True) if p % 3 else E.cb("fx", lambda t: 1.0 + 0.0 * np.asarray(t, dtype=float))
+    tf = LinearFiniteRTransform(0.0, 2.0) if p >= 3 else None
+    out = []
+    x = E.arr("x", np.linspace(-0.8, 0.8, 11) if tf is not None else np.linspace(0.0, 1.0, 11))
+    if order == 1:
+        bd = [[0, 0, 0.3]]
+    elif order == 2:
+        bd = [[0, 0, 0.0], [1, 0, 0.5]]
+    else:
+        bd = [[0, 0, 0.0], [0, 1, 0.2], [1, 0, 0.5]]
+    out.append(solve_ode_bvp(x, fx, coeffs, E.lst("bd_cond", bd), transform=tf, tol=1e-6)(E.arr("eval", x[1:-1] * 0.9)))
+    y0 = E.arr("y0", np.array([0.1, 0.2, -0.1][:order]))
+    span = E.tup("x_span", (float(x[0]), float(x[-1])))
+    out.append(solve_ode_ivp(span, fx, coeffs, y0, transform=tf, method=["DOP853", "RK45", "Radau"][p % 3])(E.arr("eval2", x[1:-1] * 0.9)))
+    return out
